@@ -22,8 +22,7 @@ pub fn derive_autocomplete(target: &TargetType, commands: &[Command]) -> Result<
                 if let _cli::autocomplete::Request::CommandName(name) = request {
                     NAMES
                         .iter()
-                        .skip_while(|n| !n.starts_with(name))
-                        .take_while(|n| n.starts_with(name))
+                        .filter(|n| n.starts_with(name))
                         .for_each(|n| {
                             // SAFETY: n starts with name, so name cannot be longer
                             let autocompleted = unsafe { n.get_unchecked(name.len()..) };
